@@ -252,7 +252,13 @@ def lattice(ctx):
 
 def p_C02(ctx):
     st = lattice(ctx)
-    r = ctx.replay(vlib.mc_cases(st), "lattice", "Trace_C02")
+    def also_reversed(cs):
+        for i, c in enumerate(cs):
+            if i % 4 == ctx.seed % 4:
+                c = dict(c)
+                c["runs"] = list(c["runs"]) + [{"tag": "rev", "rev": True}]    # same building, list of components reversed
+            yield c
+    r = ctx.replay(also_reversed(vlib.mc_cases(st)), "lattice", "Trace_C02")
     ctx.samples += ctx.sample_from_trace(ctx.last_trace, 2)
     nl = ctx.events
     runs = [{"tag": "base"}, {"tag": "k1", "kexp": [1, 1]}, {"tag": "k3", "kexp": [3, 10], "area": [5, 2]}]
@@ -424,7 +430,9 @@ def p_C12(ctx):
     unbounded(ctx, "Priority")
     st = lattice(ctx)
     runs = [{"tag": "lm0", "lm": False}, {"tag": "lm1", "lm": True}]
-    ctx.replay(with_runs(vlib.mc_cases(st), runs), "lattice", "Trace_C12")
+    # third evaluation: the same list of components in the opposite order (the cogenerator then comes before the
+    # photovoltaic system): the priority is a matter of the sources, not of the order of the list
+    ctx.replay(with_runs(vlib.mc_cases(st), runs + [{"tag": "rev0", "lm": False, "rev": True}]), "lattice", "Trace_C12")
     ctx.samples += ctx.sample_from_trace(ctx.last_trace, 2)
     ctx.replay(file_cases(runs), "files", "Trace_C12")
     ctx.replay(rnd(ctx, 400, 20000, runs), "random", "Trace_C12")
@@ -454,13 +462,17 @@ def p_C14(ctx):
     unbounded(ctx, "Monotone")
     st = ctx.mc("MC_C14", "MC_C14_quick.cfg" if ctx.quick else "MC_C14_thorough.cfg")
     def pairs(cs):
-        for c in cs:
+        for i, c in enumerate(cs):
             d = c.pop("delta")
             rs = []
             for k in ([0, 1], [1, 2], [1, 1]):
                 t = "k%d%d" % (k[0], k[1])
                 rs.append({"tag": "b." + t, "role": "b", "kexp": k})
                 rs.append({"tag": "p." + t, "role": "p", "kexp": k, "addpv": d})
+                if i % 2 == 0:
+                    # AddPv as a user makes it: one more PRODUCCION line with the id of the existing photovoltaic
+                    # system, and the file read again (the harness writes and parses the text)
+                    rs[-1]["via"] = "text"
             c["runs"] = rs
             yield c
     ctx.replay(pairs(vlib.mc_cases(st)), "lattice", "Trace_C14")
@@ -1066,6 +1078,24 @@ def p_C17(ctx):
             out = {k: os.path.join(tmp, "%d.%s" % (n, k)) for k in ("xml", "txt", "json")}
             res = cli.run_proc(["-c", pth, "-l", "PENINSULA", "-F", "--arearef=200", "--kexp=0", "--xml", out["xml"], "--txt", out["txt"], "--json", out["json"]], tmp)
             lexin.append(dict(out, case=n, tag="cli", exit=res["exit"] if isinstance(res["exit"], int) else -1))
+    # the same runs once more over paths that already hold longer documents (two copies of the largest document of
+    # each format written above): what a run leaves in its output files is a function of that run alone, whatever
+    # the paths held before (spec/Program.tla: Save replaces the file)
+    big = {}
+    for k in ("xml", "txt", "json"):
+        cands = [x[k] for x in lexin if os.path.exists(x[k])]
+        if cands:
+            b = open(max(cands, key=os.path.getsize), "rb").read()
+            big[k] = b + b
+    over = []
+    for x, pth in zip(list(lexin), files):
+        out = {k: os.path.join(tmp, "%d.over.%s" % (x["case"], k)) for k in ("xml", "txt", "json")}
+        for k in out:
+            if k in big:
+                open(out[k], "wb").write(big[k])
+        res = cli.run_proc(["-c", pth, "-l", "PENINSULA", "-F", "--arearef=200", "--kexp=0", "--xml", out["xml"], "--txt", out["txt"], "--json", out["json"]], tmp)
+        over.append(dict(out, case=x["case"], tag="cli-over", exit=res["exit"] if isinstance(res["exit"], int) else -1))
+    ctx.extra["program_runs_over_existing_longer_files"] = len(over)
     vlib.run_harness("cases", cpath, tpath)
     lpath, t2 = os.path.join(d, "files-cli.in"), os.path.join(d, "files-cli.ndjson")
     with open(lpath, "w") as f:
@@ -1077,6 +1107,15 @@ def p_C17(ctx):
     bycase = {}
     for line in open(t2):
         bycase[json.loads(line)["case"]] = line
+    # the events of the runs over existing files follow the event of the run on fresh paths
+    opath, t3 = os.path.join(d, "files-cli-over.in"), os.path.join(d, "files-cli-over.ndjson")
+    with open(opath, "w") as f:
+        for x in over:
+            f.write(json.dumps(x) + "\n")
+    vlib.run_harness("lexfiles", opath, t3)
+    for line in open(t3):
+        c_ = json.loads(line)["case"]
+        bycase[c_] = bycase.get(c_, "") + line
     with open(merged, "w") as f:
         last = None
         for line in open(tpath):
@@ -1151,6 +1190,13 @@ def p_C18(ctx):
     three = [{"src": {"text": "0, CONSUMO, ILU, ELECTRICIDAD, 1.005, 0.125\n0, PRODUCCION, EL_INSITU, 2.675, 0.004\n1, CONSUMO, ACS, EAMBIENTE, 3.333, 1.115\nDEMANDA, ACS, 4.445, 1.005"},
               "fac": {"mode": "file", "path": REPO + "/test_data/factores_paso_test.csv"}, "kexp": [1, 2], "area": [1, 1], "lm": False}]
     ctx.replay(rt(three), "three-decimals", "Trace_C18")
+    # --- the metadata store (spec/MetaStore.tla): every behaviour TLC enumerates - load a text, set_meta, save + reload -
+    # is made on a real Components and a real Factors value; Trace_Meta carries the store of the specification
+    stm = ctx.mc("MC_Meta", "MC_Meta_quick.cfg" if ctx.quick else "MC_Meta_thorough.cfg", timeout=3000)
+    n0 = ctx.ncases
+    ctx.replay(stride(vlib.mc_cases(stm), 4 if ctx.quick else 1, ctx.seed % 4 if ctx.quick else 0), "meta", "Trace_Meta", mode="meta",
+               keep=lambda c: {"ops": [o["op"] for o in c["ops"]]})
+    ctx.extra["metadata_store_behaviours"] = ctx.ncases - n0
     # --- the real program: run, save with --oc --of, run again on the saved files
     d = os.path.join(WORK, "run", ctx.pid)
     tmp = os.path.join(d, "cli")
@@ -1188,12 +1234,21 @@ def p_C18(ctx):
                         + "\n77, CONSUMO, CAL, RED1, " + ", ".join(["7.5"] * nsteps) + "\n77, CONSUMO, ACS, RED2, " + ", ".join(["2.5"] * nsteps) + "\n")
                 extra = ["--red1", "0.2", "1.1", "0.05"] if n % 2 else ["--red2", "0.9", "0.3", "0.02"]
                 ctx.cases[n] = {"name": name, "text": text, "argv_extra": extra}
+        # the location: given by option, and for two cases in three different from the one the file states
+        loc = ("PENINSULA", "CANARIAS", "BALEARES", "CEUTAMELILLA")[n % 4]
+        if n % 3 != 1:
+            text = "#META CTE_LOCALIZACION: %s\n" % ("CANARIAS", "BALEARES", "CEUTAMELILLA", "PENINSULA")[n % 4] + text
+            ctx.cases[n]["text"] = text
+        ctx.cases[n]["loc"] = loc
         open(base + ".in.csv", "w").write(text)
-        r1 = cli.run_proc(["-c", base + ".in.csv", "-l", "PENINSULA", "--arearef=50.25", "--kexp=0.25" if n % 2 else "--kexp=0.75", "--oc", base + ".oc.csv", "--of", base + ".of.csv", "--json", base + ".j1"] + extra, tmp)
+        r1 = cli.run_proc(["-c", base + ".in.csv", "-l", loc, "--arearef=50.25", "--kexp=0.25" if n % 2 else "--kexp=0.75", "--oc", base + ".oc.csv", "--of", base + ".of.csv", "--json", base + ".j1"] + extra, tmp)
         inp.append({"case": n, "tag": "orig", "json": base + ".j1", "exit": r1["exit"] if isinstance(r1["exit"], int) else -1})
         if r1["exit"] == 0:
             r2 = cli.run_proc(["-c", base + ".oc.csv", "-f", base + ".of.csv", "--json", base + ".j2"], tmp)
             inp.append({"case": n, "tag": "reload", "json": base + ".j2", "exit": r2["exit"] if isinstance(r2["exit"], int) else -1})
+            # ... and on the saved components alone: location, area, k_exp and user factors are then the recorded ones
+            r3 = cli.run_proc(["-c", base + ".oc.csv", "--json", base + ".j3"], tmp)
+            inp.append({"case": n, "tag": "reload-oc", "json": base + ".j3", "exit": r3["exit"] if isinstance(r3["exit"], int) else -1})
     ipath, tpath = os.path.join(d, "cli.in"), os.path.join(d, "cli.ndjson")
     with open(ipath, "w") as f:
         for x in inp:
